@@ -137,6 +137,17 @@ func (x *Enc) freshVal(hint string, t types.Type) Val {
 
 // typeFacts: range facts for all scalar leaves of a value of type t.
 func (x *Enc) typeFacts(t types.Type, v Val, h Heap) Term {
+	// tuples (multi-value call results): the facts of each component
+	if tp, ok := t.(*types.Tuple); ok && tp.Len() > 0 {
+		var fs []Term
+		for i := 0; i < tp.Len(); i++ {
+			lo, hi := tupleRange(tp, i)
+			if hi <= len(v.ts) {
+				fs = append(fs, x.typeFacts(tp.At(i).Type(), Val{ts: v.ts[lo:hi]}, h))
+			}
+		}
+		return and(fs...)
+	}
 	ls := leaves(t)
 	var fs []Term
 	for i, l := range ls {
